@@ -56,3 +56,62 @@ func isInvalid(p any) bool {
 	_, ok := p.(invalidData)
 	return ok
 }
+
+// lenIn reports (as one symbolic condition, without forking) whether the bit length of x is
+// one of the listed values.
+func lenIn(x uint64, lens ...int) bool {
+	ok := false
+	for _, n := range lens {
+		var c bool
+		switch {
+		case n == 0:
+			c = x == 0
+		case n == 64:
+			c = x >= 1<<63
+		default:
+			c = bAnd(x >= uint64(1)<<uint(n-1), x < uint64(1)<<uint(n))
+		}
+		ok = bOr(ok, c)
+	}
+	return ok
+}
+
+// spanClass restricts the bit length of a span in the quick tier to a set of
+// representative classes (all 65 in the thorough tier). The classes include every
+// length at which genUintNBiased changes behaviour (0,1, 8/9: m leaves its floor,
+// 55..64: overflow thresholds).
+func spanClass(span uint64) {
+	if thorough() {
+		return
+	}
+	assume(lenIn(span, 0, 1, 2, 8, 9, 17, 32, 33, 55, 56, 57, 59, 60, 61, 63, 64))
+}
+
+func streamLen(name string, quick, deep int) int {
+	if thorough() {
+		return choose(name, deep+1)
+	}
+	return choose(name, quick+1)
+}
+
+func b2u(b bool) uint64 {
+	if b {
+		return 1
+	}
+	return 0
+}
+
+// seedOfCase is the seed findBug uses for test case number iter (0-based), computed the way
+// findBug does (seed += iter per iteration).
+func seedOfCase(base uint64, iter int) uint64 {
+	e := base
+	for j := 0; j <= iter; j++ {
+		e += uint64(j)
+	}
+	return e
+}
+
+func symSlice(name string, maxLen int) []uint64 {
+	n := choose(name+".len", maxLen+1)
+	return symWords(name, n)
+}
